@@ -518,6 +518,53 @@ def gen_request(rng: random.Random, prog, *, allow_bad=True, allow_dup=False):
     return {"inputs": inputs, "outputs": outputs, "drop": rng.random() < 0.5, "kind": kind}
 
 
+def gen_stale_name_pair(rng: random.Random, prog):
+    """Two requests over the same Vars: one that fails *inside* build (after the inputs were
+    temporarily renamed), then one with drop_unused_inputs=True that uses an argument of the first
+    without listing it and gives that argument's old key to an unused argument. The second must raise
+    KeyError; it only does if the first build left no names behind. None if the program has no
+    suitable outputs."""
+    top = top_level(prog)
+    args = [n["id"] for n in top if n["k"] == "arg"]
+    vals = [n["id"] for n in top if n["k"] not in ("arg", "init", "junk")]
+    if len(args) < 2 or not vals:
+        return None
+    for _ in range(12):
+        outs = rng.sample(vals, min(len(vals), rng.choice([1, 1, 2])))
+        used = sorted(free_args(prog, outs))
+        unused = [a for a in args if a not in used]
+        if used and unused:
+            break
+    else:
+        return None
+    keys = [f"x{j}" for j in range(len(args))] + ["in_a", "data", "Z", "arg"]
+    rng.shuffle(keys)
+    order = list(args)
+    rng.shuffle(order)
+    name_of = {a: keys[j] for j, a in enumerate(order)}
+    a = rng.choice(used)
+    b = rng.choice(unused)
+    how = rng.choice(["clash", "dup", "missing"] if len(used) >= 2 else ["clash", "dup"])
+    first = {"inputs": [[name_of[x], x] for x in order], "outputs": [[f"y{j}", o] for j, o in enumerate(outs)],
+             "drop": rng.random() < 0.5, "kind": "fail-inside:" + how}
+    if how == "clash":
+        first["outputs"][0][0] = name_of[rng.choice(used)]  # ScopeError when the results are named
+    elif how == "dup":
+        first["inputs"].append(["dup_key", rng.choice(order)])
+        first["drop"] = False                                # ScopeError when the arguments are introduced
+    else:
+        m = rng.choice([u for u in used if u != a])
+        first["inputs"] = [e for e in first["inputs"] if e[1] != m]
+        first["drop"] = False                                # KeyError from the scope lookup, inside the block
+    rest = [x for x in order if x not in (a, b)]
+    rng.shuffle(rest)
+    second_inputs = [[name_of[a], b]] + [[name_of[x] if rng.random() < 0.5 else "n_" + name_of[x], x] for x in rest]
+    rng.shuffle(second_inputs)
+    second = {"inputs": second_inputs, "outputs": [[f"r{j}", o] for j, o in enumerate(outs)],
+              "drop": True, "kind": "stale-followup"}
+    return first, second
+
+
 def expected(prog, req):
     """What the property prescribes for a request (None where it is silent).
 
@@ -530,6 +577,8 @@ def expected(prog, req):
     in_ids = [i for _, i in req["inputs"]]
     if len(set(in_ids)) != len(in_ids) or not outs:
         return None  # one Var under two keys / no outputs: the property does not say
+    if {n for n, _ in req["outputs"]} & {n for n, _ in req["inputs"]}:
+        return None  # an output named like an input: not a request the property talks about
     used = free_args(prog, [i for _, i in req["outputs"]])
     if not used <= set(in_ids):
         return ("err", "Key")
